@@ -4,6 +4,7 @@ import (
 	"bytes"
 	"errors"
 	"fmt"
+	"sync/atomic"
 	"testing"
 
 	"github.com/jwhited/corebgp"
@@ -251,17 +252,30 @@ func (r *c17Rec) next(kind string) error {
 	return e
 }
 
-var c17Decoder = corebgp.NewUpdateDecoder[*c17Rec](
-	func(r *c17Rec, b []byte) error { return r.next("wr") },
-	func(r *c17Rec, code uint8, flags corebgp.PathAttrFlags, b []byte) error { return r.next("attr") },
-	func(r *c17Rec, b []byte) error { return r.next("nlri") },
-)
+var c17Fresh atomic.Bool // see c16Fresh
+
+var c17Decoder = newC17Decoder()
+
+func newC17Decoder() *corebgp.UpdateDecoder[*c17Rec] {
+	return corebgp.NewUpdateDecoder[*c17Rec](
+		func(r *c17Rec, b []byte) error { return r.next("wr") },
+		func(r *c17Rec, code uint8, flags corebgp.PathAttrFlags, b []byte) error { return r.next("attr") },
+		func(r *c17Rec, b []byte) error { return r.next("nlri") },
+	)
+}
+
+func c17Dec() *corebgp.UpdateDecoder[*c17Rec] {
+	if c17Fresh.Load() {
+		return newC17Decoder()
+	}
+	return c17Decoder
+}
 
 func c17Prop(c c17Case) hx.Verdict {
 	b := []byte(c.B)
 	ref := wire.PartitionUpdate(b)
 	rec := &c17Rec{plan: c.Errs, stopAt: -1}
-	res := c17Decoder.Decode(rec, append([]byte(nil), b...))
+	res := c17Dec().Decode(rec, append([]byte(nil), b...))
 
 	nerr := 0
 	for _, e := range c.Errs[:min(len(c.Errs), rec.calls)] {
@@ -462,7 +476,7 @@ func TestC17(t *testing.T) {
 		t.Errorf("%s", d.Msg)
 	}
 
-	hx.Rapid(r, t, "decode_classes", r.N(60000, 600000), func(rt *rapid.T) c17Case {
+	genOne := func(rt *rapid.T) c17Case {
 		b, _ := genUpdateBody(rt)
 		c := c17Case{B: b}
 		if rapid.IntRange(0, 2).Draw(rt, "witherrs") > 0 {
@@ -472,7 +486,12 @@ func TestC17(t *testing.T) {
 			}
 		}
 		return c
-	}, c17Prop)
+	}
+	hx.Rapid(r, t, "decode_classes", r.N(60000, 600000), genOne, c17Prop)
+
+	c17Fresh.Store(true)
+	hx.Rapid(r, t, "concurrent_decoders", r.N(400, 4000), genConc(genOne, 2, 6, 40), concProp(c17Prop))
+	c17Fresh.Store(false)
 
 	// every short string over the protocol alphabet as the attribute block of
 	// a consistent body (three NLRI variants), callbacks returning nil
